@@ -29,6 +29,11 @@ RULE = ('generated probe directories run through the real Merger (its six channe
         'MATRIX VALUES: ~60% of the probes carry entries that float32 cannot hold (0.1, 1/3, 1+2^-30, 1e-50, 2^24+1) - kept '
         'exactly by float64 files, rounded once at materialisation by float32 files - so that float32 and float64 matrices '
         'with full-precision entries meet in one merge in either order. '
+        'STORAGE FORM: ~35% of the probes (and 5 forced corpus cases that run first) store some or all of their .npy files '
+        '(channel_map, channel_positions, templates, pc_feature_ind, template_feature_ind, the three matrices) in Fortran '
+        'order (header fortran_order=True, MATLAB npy writers) and / or byte-swapped (big-endian descr): every file of the '
+        'probe in one form, an independent form per file, or a single file; in the first probe only, in later probes only, '
+        'in all; np.load returns the same values, so the model is not told and the merged dataset must not change. '
         'Non-trivial = at least two probes and the merge produced the arrays; distinct = distinct abstract input.')
 EXHAUSTIVE = {'quick': True, 'thorough': True}
 CLAUSES = {
@@ -51,6 +56,7 @@ ASSUMES = ['every probe has >= 1 channel, >= 1 template, >= 1 waveform sample, t
            'templates have as many channels as the channel map; index-table entries are valid local indices; x >= 0',
            'template values are small integers / dyadic numbers exact in float32, coordinates multiples of 1/4 (exact regime); '
            'matrix entries are any finite doubles, given to the model as the probe file holds them',
+           'a Fortran-ordered or byte-swapped .npy file is the same input as its C-ordered native twin (np.load trusted)',
            'earlier merges of a history write into their own output directories and never into a probe directory']
 TIMEOUT = {'quick': 60, 'thorough': 120}     # a merge takes ~10 ms; generous because the machine may be heavily loaded
 MATCHERS = {}
@@ -122,6 +128,7 @@ def _case(rng, sizes, route=None, vec2d=None, **o):
     pre = o.pop('pre', None)
     mat_dtypes = o.pop('mat_dtypes', None)
     again = o.pop('again', None)
+    lays = o.pop('lays', None)               # per-probe storage forms of the files (None = drawn per probe)
     pres = o.pop('present', None)
     if pres is None:
         pres = {}
@@ -135,6 +142,8 @@ def _case(rng, sizes, route=None, vec2d=None, **o):
             po[name] = pres[name][k]
         if mat_dtypes is not None:
             po['wm_dtype'], po['wmi_dtype'], po['sim_dtype'] = mat_dtypes[k]
+        if lays is not None:
+            po['lay'] = lays[k]
         probes.append(M.gen_probe(rng, nc=nc, nt=nt, ns=nss[k], pcw=pcw, tfw=tfw, rate=rate, rate_lit=lits[k], **po))
     if route is None:
         route = 'merge' if rng.random() < 0.25 else 'methods'
@@ -182,8 +191,24 @@ def _all(n):
     return {'wm': [True] * n, 'wmi': [True] * n, 'sim': [True] * n}
 
 
+def _lay_all(form):
+    return {k: form for k in M.LAY_KEYS}
+
+
 def generate(tier, rng):
     cases = []
+    # storage form of the probe files: Fortran-ordered (MATLAB npy writers) and byte-swapped (big-endian) .npy files load
+    # to the same arrays; first probe only / every probe / a later probe only, 32-bit signed and unsigned tables
+    cases.append(_case(rng, [(3, 2), (2, 3), (2, 2)], route='methods', present=_all(3), pre=[], again=1, ns=3,
+                       lays=[_lay_all('F'), {}, {}]))
+    cases.append(_case(rng, [(3, 2), (2, 2)], route='methods', present=_all(2), pre=[], again=1, ind_dtype='int32',
+                       tf_dtype='int32', lays=[_lay_all('>'), {}]))
+    cases.append(_case(rng, [(2, 2), (3, 2), (2, 3)], route='merge', present=_all(3), pre=[], again=1, ind_dtype='uint32',
+                       tf_dtype='uint32', ns=2, lays=[_lay_all('F>')] * 3))
+    cases.append(_case(rng, [(2, 3), (3, 2)], route='methods', present=_all(2), pre=[], again=1, ns=2,
+                       lays=[{}, _lay_all('F>')]))
+    cases.append(_case(rng, [(2, 2), (3, 3)], route='methods', present=_all(2), pre=[[0, 1]], again=2, ns=2,
+                       ind_dtype='int64', lays=[{'tmpl': 'F', 'pc': '>', 'wm': 'F>'}, {'tf': '>', 'pos': 'F', 'sim': 'F'}]))
     # history axis: the observed merge comes after other merges of the same probe directories in the same process
     # (A+B, then A+B+C; the same merge again; another order first), or is run twice on one Merger object
     cases.append(_case(rng, [(2, 2), (3, 1), (1, 2)], route='methods', pre=[[0, 1]], again=1))
@@ -409,6 +434,21 @@ def dist(case, obs):
             if any(fine) and any(f32):
                 out.append('full_precision_%s_beside_float32=%s' % (
                     name, 'float32_first' if f32[0] else 'float64_first'))
+    lays = [p.get('lay') or {} for p in ps]
+    out.append('probes_with_nonstandard_files=%s' % ('none' if not any(lays) else 'all' if all(lays) else
+                                                      'first_only' if lays[0] and not any(lays[1:]) else
+                                                      'later_only' if not lays[0] else 'some'))
+    for key in M.LAY_KEYS:
+        forms = set(c for l in lays for c in l.get(key, ''))
+        if 'F' in forms:
+            out.append('fortran_order_file=' + key)
+        if '>' in forms:
+            out.append('big_endian_file=' + key)
+    if 'F' in lays[0].get('tmpl', '') and len(ps[0]['tmpl']) > 1 and len(ps[0]['tmpl'][0]) * len(ps[0]['cm']) > 1:
+        out.append('first_probe_templates_fortran_nontrivial=True')
+    for key, i in (('pc', 3), ('tf', 4)):
+        if '>' in lays[0].get(key, '') and M.probe_dtypes(ps[0])[i] in ('int32', 'uint32'):
+            out.append('first_probe_big_endian_32bit_table=' + key)
     out.append('pc_width=%d' % len(ps[0]['pc'][0]))
     out.append('permuted_map=%s' % any(p['cm'] != sorted(p['cm']) for p in ps))
     sts = [M.spike_templates(p) for p in ps]
@@ -521,6 +561,18 @@ def shrink(case):
                     yield mk(pre=pre[:i] + [h[:j] + h[j + 1:]] + pre[i + 1:])
     if int(inp.get('again') or 1) > 1:
         yield mk(again=1)
+    if any(p.get('lay') for p in ps):
+        yield mk(probes=[{k: v for k, v in p.items() if k != 'lay'} for p in ps])
+        for k, p in enumerate(ps):
+            lay = p.get('lay') or {}
+            if lay:
+                yield mk(probes=ps[:k] + [{a: v for a, v in p.items() if a != 'lay'}] + ps[k + 1:])
+            for key in sorted(lay):
+                rest = {a: v for a, v in lay.items() if a != key}
+                yield mk(probes=ps[:k] + [dict(p, lay=rest)] + ps[k + 1:])
+                if len(lay[key]) > 1:
+                    for c in lay[key]:
+                        yield mk(probes=ps[:k] + [dict(p, lay=dict(rest, **{key: c}))] + ps[k + 1:])
     # large probes: halve / cut the template and channel counts before anything else
     for k, p in enumerate(ps):
         nt, nc = len(p['tmpl']), len(p['cm'])
